@@ -137,6 +137,11 @@ def single_faults(tc: bool, tier: str) -> List[List]:
             for k in (1, 2, 3, 5):
                 for trig in ("publish", "ctl", "timers"):
                     out.append(["adie", role, how, k, trig])
+    # ... a connecting module dies right before the manager's k-th send of the round that serves its own CONNECT
+    for role in ("newlogger", "newmodule"):
+        for how in ("fin", "rst"):
+            for k in (1, 2, 3, 4, 6):
+                out.append(["adie", role, how, k, "connect"])
     return out
 
 
@@ -284,6 +289,11 @@ def apply_fault(cx: Ctx, fault: Sequence, name: str = "X", hid=None) -> List[str
     if kind == "adie":
         _, role, how, k, trig = fault
         tc = cx.tc
+        if role in ("newlogger", "newmodule"):
+            D = position(cx, name, "accepted", hid)
+            w.kill_plan = (k, [D], how)
+            cx.handshake(D, D.mid, logger=1 if role == "newlogger" else 0)
+            return [name]
         if role == "subscriber":
             D = position(cx, name, "subscribed", hid)
         elif role == "suball":
